@@ -19,6 +19,9 @@ use crate::layout_rules::SectionKind;
 use crate::output_section_id::SectionName;
 use crate::output_section_id::SectionOutputInfo;
 
+#[path = "__verif_stubs.rs"]
+mod stubs;
+
 const NAMELEN: usize = 12;
 
 fn starts_with(name: &[u8], p: &[u8]) -> bool {
@@ -122,18 +125,21 @@ fn harness(check_secondary: bool) {
 
 #[kani::proof]
 #[kani::unwind(70)]
+#[kani::stub(std::arch::x86_64::__cpuid_count, stubs::verif_cpuid_stub)]
 fn c30_reverse_exactly_ctors_dtors_inputs_of_init_fini_array() {
     harness(false);
 }
 
 #[kani::proof]
 #[kani::unwind(70)]
+#[kani::stub(std::arch::x86_64::__cpuid_count, stubs::verif_cpuid_stub)]
 fn c30_reverse_follows_the_primary_of_a_priority_secondary() {
     harness(true);
 }
 
 #[kani::proof]
 #[kani::unwind(70)]
+#[kani::stub(std::arch::x86_64::__cpuid_count, stubs::verif_cpuid_stub)]
 fn c30_canary_reverse_reachable() {
     // must fail: with a symbolic name both answers are reachable
     let mut strtab = [0u8; NAMELEN + 2];
